@@ -212,8 +212,10 @@ def run_check(prop, tier, only=None, jobs=None, native=True, proof=True, verbose
     if missing and rc == 0:
         errors.append(f"{len(missing)} baseline obligations were not generated, e.g. {missing[:3]}")
     if errors:
-        for e in errors:
+        for e in errors[:5]:
             lines.append(f"ERROR {e[:1500]}")
+        if len(errors) > 5:
+            lines.append(f"ERROR ... and {len(errors) - 5} more harness errors")
         if rc == 0:
             rc = 3
     for o in out_of_reach:
